@@ -125,7 +125,7 @@ impl HistoryCase {
                     tree = Some(e);
                     info.steps_ok += 1;
                 }
-                Step::Err(m) => {
+                Step::Err(m, _) => {
                     info.steps_err += 1;
                     if st.err == 0 {
                         info.error_kinds.push(m.split_whitespace().take(3).collect::<Vec<_>>().join("_"));
